@@ -345,8 +345,17 @@ pub fn oracle_tree<const N: usize>(c: &TreeCase) -> Viol {
             }
             // C10
             let want: Vec<(u32, Vec<u8>)> = content.iter().map(|(k, v)| (*k as u32, v.clone())).collect();
-            let it: Vec<(u32, Vec<u8>)> =
-                t.node_iter().map(|n| (n.key().idx, n.value_hash().as_bytes().to_vec())).collect();
+            let it: Vec<(u32, Vec<u8>)> = match catch_unwind(AssertUnwindSafe(|| {
+                t.node_iter().take(4 * (visited.len() + 4)).map(|n| (n.key().idx, n.value_hash().as_bytes().to_vec())).collect::<Vec<_>>()
+            })) {
+                Ok(v) => v,
+                Err(_) => {
+                    out.push(("C15", at("node_iter() panicked")));
+                    out.push(("C17", at("node_iter() panicked on a tree the in-order traversal visits without problem")));
+                    out.push(("C10", at("node_iter() panicked: the stored entries cannot be read back")));
+                    continue;
+                }
+            };
             if it != want {
                 out.push(("C10", at(&format!("node_iter content {:?} != map semantics {:?}", it, want))));
             }
@@ -859,11 +868,19 @@ pub fn oracle_sync(c: &SyncCase) -> Viol {
             return out;
         }
         // quiescent phase: all-pairs blocks
-        let bound = 4 + c.nrep * c.keys.len() * 4;
+        // every changing pull raises at least one entry towards the (finite) join, so nrep * keys * distinct
+        // written values blocks always suffice; large cases are capped (a healthy run needs two or three)
+        let bound = (4 + c.nrep * c.keys.len() * 4).min(if c.final_only { 12 } else { 400 });
         let mut blocks = 0;
         loop {
             let hs: Vec<_> = reps.iter_mut().map(|r| r.tree.root_hash().clone()).collect();
             if hs.windows(2).all(|w| w[0] == w[1]) {
+                break;
+            }
+            // a tree holding more nodes than its store has keys can never converge: stop at once
+            if let Some((i, rp)) = reps.iter().enumerate().find(|(_, rp)| rp.tree.node_iter().take(4 * rp.store.len() + 8).count() > rp.store.len()) {
+                out.push(("C06", format!("replica {i}: tree holds more nodes than its store has keys ({} keys): duplicates, cannot converge", rp.store.len())));
+                out.push(("C10", format!("replica {i}: tree holds duplicate nodes after a sync schedule")));
                 break;
             }
             if blocks > bound {
